@@ -27,6 +27,7 @@ a 3-player Minimum Effort Game
   [[-19., -19.,   1.],   [ -8.,  -8.,   2.],   [  3.,   3.,   3.]]]]
 
 """
+import sys
 import numpy as np
 from .normal_form_game import Player, NormalFormGame
 
@@ -194,10 +195,13 @@ class GAMWriter:
         s += ' '.join(map(str, g.nums_actions)) + '\n\n'
 
         for i, player in enumerate(g.players):
+            # Write every entry (no summarization with '...') with enough
+            # digits to be read back exactly
             payoffs = np.array2string(
                 player.payoff_array.transpose(
                     (*range(g.N-i, g.N), *range(g.N-i))
-                ).ravel(order='F'))[1:-1]
+                ).ravel(order='F'),
+                threshold=sys.maxsize, floatmode='unique')[1:-1]
             s += ' '.join(payoffs.split()) + ' '
 
         return s.rstrip()
